@@ -126,8 +126,8 @@ def gen_case(rng, stats, extra):
     expected = None
     tour_blocks = 0
     if x < 0.25:
-        items, expected = asmgen.gen_tour(rng)
-        tour_blocks = sum(1 for it in items if it[0] == 'label' and it[1].startswith('B'))
+        items, expected = asmgen.gen_tour(rng, funcproc=(rng.random() < 0.5))
+        tour_blocks = sum(1 for it in items if it[0] in ('label', 'func', 'proc') and it[1].startswith('B'))
         fam = 'tour'
     else:
         items = asmgen.gen_random_program(rng, big=(tier == 'thorough' or rng.random() < 0.15), huge=(tier == 'thorough' and rng.random() < 0.05))
